@@ -29,8 +29,8 @@ var logger = slog.New(slog.NewTextHandler(io.Discard, nil))
 
 var (
 	classicNames = []string{"foo", "a1", "_x", "alertname", "A_b_9"}
-	utf8Names    = []string{"fóo", "a b", "a=b", `a"b`, "a{b", "a}b", "😀", "a,b", `a\b`, "a'b", "a`b", "a\nb", "a!b", "a~b", " x", "1a", "a.b", "a-b", "a:b"}
-	values       = []string{"", "bar", "a b", `a"b`, `a\b`, "a\nb", "a\tb", "{a}", "a,b", `\n`, `a\`, `\`, `\\`, " lead", "trail ", "é😀", "a=b", "!~", "'q'", "`q`", `"`, `""`, `a\"b`, "a}", "{", "}", ",", "x\\ny", `\"`, "a\rb", "multi\nline\n", `C:\dir\n`, "ü"}
+	utf8Names    = []string{"fóo", "a b", "a=b", `a"b`, "a{b", "a}b", "😀", "a,b", `a\b`, "a'b", "a`b", "a\nb", "a!b", "a~b", " x", "1a", "a.b", "a-b", "a:b", "n\uFFFDm", "\uFFFD", "n\u00a0m", "e\u0301", "\U0010FFFF"}
+	values       = []string{"", "bar", "a b", `a"b`, `a\b`, "a\nb", "a\tb", "{a}", "a,b", `\n`, `a\`, `\`, `\\`, " lead", "trail ", "é😀", "a=b", "!~", "'q'", "`q`", `"`, `""`, `a\"b`, "a}", "{", "}", ",", "x\\ny", `\"`, "a\rb", "multi\nline\n", `C:\dir\n`, "ü", "a\uFFFDb", "\uFFFD", "x\u00a0", "\u2003y", "a\u0085", "\ufeffa", "a\u2028b", "\U0010FFFF", "e\u0301", "\x00", "a\vb"}
 	regexValues  = []string{".*", "a|b", "[ab]+", `\d+`, "a.b", "(x|y)z", `a\.b`, `"q"`, "", ".+", `\\`, "a{1,2}", "[^,]+", `\{x\}`, "é+", `a\nb`}
 	ops          = []string{"=", "!=", "=~", "!~"}
 	probes       = []string{"", "a", "b", "ab", "a.b", "axb", "xz", "yz", "1", "12", `"q"`, `\`, "{x}", "é", "éé", "a\nb", "aa", ","}
